@@ -266,6 +266,32 @@ impl Describe for DCustom<'_> {
     }
 }
 
+/// Fields whose types are tuples mixing markers and resource-bearing members.
+#[derive(shred::SystemData)]
+pub struct DTupField<'a, U: 'static> {
+    pub t: (Read<'a, L0>, PhantomData<U>),
+    pub n: ((PhantomData<U>, Write<'a, L1>), (), PhantomData<&'a U>),
+    pub m: (PhantomData<U>, PhantomData<u8>),
+    pub o: (Option<Read<'a, L2>>, (PhantomData<U>,)),
+}
+impl<U: 'static> Describe for DTupField<'_, U> {
+    fn leaves(o: &mut Vec<LeafD>) {
+        o.push(LeafD { res: 0, write: false, kind: LKind::Default });
+        o.push(LeafD { res: 1, write: true, kind: LKind::Default });
+        o.push(LeafD { res: 2, write: false, kind: LKind::Optional });
+    }
+}
+
+#[derive(shred::SystemData)]
+pub struct DTupField2<'a>(pub (PhantomData<u32>, WriteExpect<'a, L3>, Read<'a, L4, H<4>>), pub PhantomData<&'a ()>, pub (Read<'a, L5>,));
+impl Describe for DTupField2<'_> {
+    fn leaves(o: &mut Vec<LeafD>) {
+        o.push(LeafD { res: 3, write: true, kind: LKind::Expect });
+        o.push(LeafD { res: 4, write: false, kind: LKind::Custom(4) });
+        o.push(LeafD { res: 5, write: false, kind: LKind::Default });
+    }
+}
+
 impl std::fmt::Debug for L18 {
     fn fmt(&self, f: &mut std::fmt::Formatter<'_>) -> std::fmt::Result {
         write!(f, "L18({})", self.tag)
@@ -290,6 +316,8 @@ fam!(FDTwoLt, DTwoLt<'a, 'static>);
 fam!(FDNest, DNest<'a>);
 fam!(FDTupleGen, DTupleGen<'a, L23>);
 fam!(FDCustom, DCustom<'a>);
+fam!(FDTupField, DTupField<'a, String>);
+fam!(FDTupField2, DTupField2<'a>);
 fam!(FDInTuple, (DNamed<'a>, (DTuple<'a>, Write<'a, L24>), DGenField<'a, Read<'a, L25>>));
 
 pub fn all_fams() -> Vec<FamEntry> {
@@ -305,6 +333,8 @@ pub fn all_fams() -> Vec<FamEntry> {
     v.push(fam_entry::<FDTupleGen>("DTupleGen", "derived generic tuple struct with a custom setup handler"));
     v.push(fam_entry::<FDCustom>("DCustom", "derived struct with custom setup handlers, one resource twice"));
     v.push(fam_entry::<FDInTuple>("DInTuple", "tuple of derived structs"));
+    v.push(fam_entry::<FDTupField>("DTupField", "derived named struct whose fields are tuples mixing PhantomData markers and resource-bearing members"));
+    v.push(fam_entry::<FDTupField2>("DTupField2", "derived tuple struct with tuple-typed fields containing markers"));
     v
 }
 
@@ -468,6 +498,46 @@ pub fn check_fetch_case(f: &FamEntry, tab: &[ResEntry], absent: &[usize], cnt: &
     }
 }
 
+/// A conflicting borrow held by somebody else while the type is fetched: the fetch must panic
+/// (also for the `Option` forms - `None` is only for an absent resource), must not return an
+/// aliasing value, and must leave nothing but the outside guard behind.
+pub fn check_conflict_case(f: &FamEntry, tab: &[ResEntry], res: usize, outside_excl: bool, cnt: &mut ZCount, out: &mut Vec<Violation>) {
+    cnt.cases += 1;
+    let leaves = (f.leaves)();
+    let w = full_world(tab, &[]);
+    // SAFETY: only the borrow flag is used
+    let cell = unsafe { w.try_fetch_internal(tab[res].rid.clone()) }.expect("present");
+    let must_panic = leaves.iter().any(|l| l.res == res && (outside_excl || l.write));
+    let (r, after) = if outside_excl {
+        let g = cell.borrow_mut();
+        let r = catch_unwind(AssertUnwindSafe(|| (f.fetch_probe)(&w, tab)));
+        let after = probe(&w, tab);
+        drop(g);
+        (r, after)
+    } else {
+        let g = cell.borrow();
+        let r = catch_unwind(AssertUnwindSafe(|| (f.fetch_probe)(&w, tab)));
+        let after = probe(&w, tab);
+        drop(g);
+        (r, after)
+    };
+    match (r, must_panic) {
+        (Ok(_), true) => out.push(vio(
+            "conflict-not-reported",
+            format!("{} ({}): resource {} is {} borrowed by someone else and the type declares it, yet fetch returned a value", f.name, f.desc, res, if outside_excl { "exclusively" } else { "shared" }),
+        )),
+        (Err(p), false) => out.push(vio("fetch-panicked", format!("{}: fetch panicked although the outside shared borrow of resource {} is compatible: {}", f.name, res, crate::util::payload_string(&p).lines().next().unwrap_or(""))),),
+        (Err(_), true) => cnt.crash_points += 1,
+        (Ok(_), false) => {}
+    }
+    for (i, c) in after.iter().enumerate() {
+        let want = if i == res { if outside_excl { Cell::Excl } else { Cell::Shared } } else { Cell::Free };
+        if *c != want {
+            out.push(vio("not-released", format!("{}: with resource {} borrowed outside, resource {} is {:?} after the fetch ended (expected {:?})", f.name, res, i, c, want)));
+        }
+    }
+}
+
 pub fn check_declared(f: &FamEntry, tab: &[ResEntry], cnt: &mut ZCount, out: &mut Vec<Violation>) {
     cnt.cases += 1;
     let leaves = (f.leaves)();
@@ -554,6 +624,8 @@ pub fn check_family(f: &FamEntry, tab: &[ResEntry], cnt: &mut ZCount) -> Vec<Vio
         if !seen.contains(&l.res) {
             seen.push(l.res);
             check_fetch_case(f, tab, &[l.res], cnt, &mut out);
+            check_conflict_case(f, tab, l.res, true, cnt, &mut out);
+            check_conflict_case(f, tab, l.res, false, cnt, &mut out);
         }
     }
     check_setup_case(f, tab, &[], cnt, &mut out);
